@@ -275,8 +275,9 @@ impl<R: RealNumberInternalTrait> Number<R> {
             Number::Integer(num) => Number::Integer(num),
             Number::Real(num) => Number::Real(num.floor()),
             Number::Rational(a, b) => Number::Integer({
+                // `/` truncates towards zero: that is the floor unless the ratio is negative and not integral
                 let quot = a / b;
-                if quot >= 0 || quot * b == a {
+                if (a < 0) == (b < 0) || quot * b == a {
                     quot
                 } else {
                     quot - 1
@@ -290,8 +291,9 @@ impl<R: RealNumberInternalTrait> Number<R> {
             Number::Integer(num) => Number::Integer(num),
             Number::Real(num) => Number::Real(num.ceil()),
             Number::Rational(a, b) => Number::Integer({
+                // `/` truncates towards zero: that is the ceiling unless the ratio is positive and not integral
                 let quot = a / b;
-                if quot <= 0 || quot * b == a {
+                if (a < 0) != (b < 0) || quot * b == a {
                     quot
                 } else {
                     quot + 1
